@@ -203,6 +203,11 @@ class ModuleInfo:
             if m is None:
                 return ("ext", f"{base}.{attr}")
             sub = self.world.module(f"{base}.{attr}", soft=True)
+            if m is self or (attr in m.imports and m.imports[attr] == imp):
+                # `from . import sub` inside a package's own __init__: the name is the sub-module
+                if attr in m.functions or attr in m.classes or attr in m.assigns:
+                    return (m.functions.get(attr) or m.classes.get(attr) or ("const", m.assigns[attr], m))
+                return sub
             r = m.resolve_name(attr)
             if r is None and sub is not None:
                 return sub
